@@ -46,7 +46,7 @@ def c20_lists(tier, seed):
         # destructible but not trivially relocatable) are always part of the quick matrix
         names = {c['name'] for c in chosen}
         for c in core_pool:
-            if (c['tags'] & {'handle', 'selfref'}) and c['name'] not in names:
+            if (c['tags'] & {'handle', 'selfref', 'stamped', 'cloned'}) and c['name'] not in names:
                 chosen.append(c)
         return chosen, by_cat
     return [c for cat in sorted(by_cat) for c in by_cat[cat]], by_cat
